@@ -15,3 +15,17 @@ package main
 //@   ensures [C19:count_is_sum] m.numHandlers == old(m.numHandlers) + recvsum(m.handlerChan) - old(recvsum(m.handlerChan))
 //@   ensures [C19:term_on_zero] recvcount(m.sigChan) == old(recvcount(m.sigChan)) ==> termOnNoHandlers && m.numHandlers == 0
 //@   ensures [C19:signal_returned_at_once] recvcount(m.sigChan) <= old(recvcount(m.sigChan)) + 1
+
+// Every handler reports its start and its end to the monitor with a (blocking) send of +1 / -1: the
+// monitor's count can only return to zero if no report is ever dropped.
+//@ func (*termMonitor).onHandlerStart(m) ()
+//@   serves C19
+//@   requires m != nil
+//@   modifies star(m.handlerChan), blocked
+//@   ensures [C19:start_is_reported] sentcount(m.handlerChan) == old(sentcount(m.handlerChan)) + 1 && sentsum(m.handlerChan) == old(sentsum(m.handlerChan)) + 1
+
+//@ func (*termMonitor).onHandlerFinish(m) ()
+//@   serves C19
+//@   requires m != nil
+//@   modifies star(m.handlerChan), blocked
+//@   ensures [C19:finish_is_reported] sentcount(m.handlerChan) == old(sentcount(m.handlerChan)) + 1 && sentsum(m.handlerChan) == old(sentsum(m.handlerChan)) - 1
